@@ -235,7 +235,11 @@ impl<T: Copy, H> ArrayHandle<T, H> {
 
     let len = slice.len();
     let new_layout = make_array_layout::<H, T>(len);
+    #[cfg(feature = "verif")]
+    let verif_managed = crate::verif::ManagedAlloc::enter();
     let buf = unsafe { alloc(new_layout) };
+    #[cfg(feature = "verif")]
+    drop(verif_managed);
 
     if buf.is_null() {
       handle_alloc_error(new_layout);
